@@ -545,5 +545,11 @@ def run(rep, facts, tier):
                       'write is the poll-event notification, and the sending end of that socket pair is set non-blocking before use')
     # the two open findings stay in the table as known findings through known_findings.json (they are violations of R06.1)
     run_config(rep, facts['default'], 'default')
+    # a marker moved by the wire (HEARTBEAT / GAP on a re-created proxy) must not make the reading thread panic under the cache mutex
+    rep.rule('R06.4', 'legal range bounds in the reliable hand-over query: get_changes_in_range_reliable ranges over (Excluded(lo), Excluded(max(marker, lo + 1))), so start < end even '
+                      'when the reliable marker (which HEARTBEAT, GAP and DATA of a re-created writer proxy move backwards) is at or below the read pointer; BTreeMap::range panics on equal '
+                      'excluded bounds, the poisoned topic-cache mutex then stops the receive thread too')
+    from rules.C01 import rule_reliable_window
+    rule_reliable_window(rep, facts['default'], 'R06.4')
     if tier == 'thorough' and 'security' in facts:
         run_config(rep, facts['security'], 'security', floor=False)
